@@ -273,6 +273,8 @@ impl ExecutionSpawnResult {
             }
             Self::Completed(result) => ExecutionWaitResult::Completed(result),
             Self::StartedTask(join_handle) => {
+                #[cfg(feature = "verif-hooks")]
+                crate::verif::before_join(&join_handle);
                 let result = join_handle.await?;
                 ExecutionWaitResult::Completed(result?)
             }
@@ -287,6 +289,8 @@ impl ExecutionSpawnResult {
             Self::Completed(result) => ExecutionWaitResult::Completed(result),
             Self::StartedTask(join_handle) => {
                 // TODO(jobs): This isn't right.
+                #[cfg(feature = "verif-hooks")]
+                crate::verif::before_join(&join_handle);
                 let result = join_handle.await?;
                 ExecutionWaitResult::Completed(result?)
             }
